@@ -14,10 +14,10 @@ from pddl_plus_parser.exporters import TrajectoryExporter
 from pddl_plus_parser.lisp_parsers import TrajectoryParser
 
 
-KINDS = ["app", "apply", "newop", "applyop", "copy", "eq", "run", "export", "parse", "objs", "flconds", "typed", "edit"]
-WEIGHTS = {"chain": [3, 8, 1, 3, 0, 0, 2, 0, 0, 0, 0, 0, 2], "mixed": [2, 5, 1, 3, 1, 2, 2, 1, 1, 1, 1, 1, 2],
-           "state": [1, 5, 1, 2, 3, 6, 1, 0, 1, 2, 2, 2, 3], "traj": [0, 2, 0, 0, 0, 1, 4, 3, 4, 0, 0, 0, 0],
-           "plans": [0, 1, 0, 0, 0, 0, 6, 1, 1, 0, 0, 0, 0]}
+KINDS = ["app", "apply", "newop", "applyop", "copy", "eq", "run", "export", "parse", "objs", "flconds", "typed", "edit", "groundrep"]
+WEIGHTS = {"chain": [3, 8, 1, 3, 0, 0, 2, 0, 0, 0, 0, 0, 2, 1], "mixed": [2, 5, 1, 3, 1, 2, 2, 1, 1, 1, 1, 1, 2, 1],
+           "state": [1, 5, 1, 2, 3, 6, 1, 0, 1, 2, 2, 2, 3, 1], "traj": [0, 2, 0, 0, 0, 1, 4, 3, 4, 0, 0, 0, 0, 1],
+           "plans": [0, 1, 0, 0, 0, 0, 6, 1, 1, 0, 0, 0, 0, 0]}
 
 
 def proj_steps(triplets):
@@ -177,6 +177,21 @@ def run_case(case, opts):
             if pc is not None:
                 ev.append({"c": "IsApplicable", "d": "d", "u": "p", "act": pc[0], "args": pc[1], "s": sh,
                            "out": pylib.observe_applicable(dom, pc[0], pc[1], prob.objects, states[sh])})
+        elif kind == "groundrep":
+            # grounding (only) of a call that puts one object twice into a fluent term: the grounding itself is
+            # judged under the RepeatedFluentArg finding; what matters here is that it leaves everything else alone
+            found = None
+            for _ in range(12):
+                name, params = rng.choice(acts)
+                args = type_correct_args(rng, params, objs)
+                terms = [t for t in gen_core.fluent_terms(action_tree(case["dom"], name), [])]
+                if gen_core.repeats_fluent_arg(terms, params, args, objs):
+                    found = (name, args)
+                    break
+            if found is None:
+                continue
+            ev.append({"c": "Ground", "d": "d", "u": "p", "act": found[0], "args": found[1],
+                       "out": pylib.observe_grounding(dom, found[0], found[1], prob.objects)})
         elif kind == "objs":
             try:
                 out = {"names": sorted(states[sh].get_state_objects())}
